@@ -521,17 +521,26 @@ def check(model, rep, tier):
   fso = model.func(FUNCS, 'FunctionTransformer._function_scope_options')
   fp_ = fso.params()[0]
 
+  # the parameter is the function's state object, or its nesting level when
+  # every caller passes <state>.level
+  ft = model.cls(FUNCS, 'FunctionTransformer')
+  passed = [core.norm(c.args[0]) for m_ in ft.methods.values() for c in ast.walk(m_.node)
+            if isinstance(c, ast.Call) and core.norm(c.func) == 'self.' + fso.name
+            and c.args]
+  lv_ = fp_ if passed and all(a.endswith('.level') for a in passed) else fp_ + '.level'
+
   def lvl_atom(e):
     t = core.norm(e)
-    if t in ('%s.level == 2' % fp_, '%s.level <= 2' % fp_, '%s.level < 3' % fp_):
+    if t in ('%s == 2' % lv_, '%s <= 2' % lv_, '%s < 3' % lv_):
       return 'TOP'
     return None
+
+  def xv(v):
+    return tpl.xnorm(fso, v, v) if v is not None else None
   cases = formula.return_cases(fso.node, formula.expanding(fso.node, lvl_atom))
   TOPA = formula.atom('TOP')
-  top_vals = {core.norm(v) if v is not None else None
-              for f, v in cases if formula.satisfiable(f & TOPA)}
-  deep_vals = {core.norm(v) if v is not None else None
-               for f, v in cases if formula.satisfiable(f & ~TOPA)}
+  top_vals = {xv(v) for f, v in cases if formula.satisfiable(f & TOPA)}
+  deep_vals = {xv(v) for f, v in cases if formula.satisfiable(f & ~TOPA)}
   lvl2, deeper = sorted(map(str, top_vals)), sorted(map(str, deep_vals))
   rep.check(top_vals == {'self.ctx.user.options'} and
             deep_vals == {'self.ctx.user.options.call_options()'}, 'OPT-CALLEE',
@@ -559,6 +568,65 @@ def check(model, rep, tier):
   rep.unit('fields', len(fields))
 
 
+def _dict_value(stmts, name):
+  """{key: value expr} held by the local `name` at the end of the straight-line
+  block `stmts` (dict displays / dict(k=v) / .update / item stores with constant
+  keys); None when anything else touches a dictionary involved."""
+  env = {}
+
+  def lit(e):
+    if isinstance(e, ast.Dict) and all(isinstance(k, ast.Constant) and isinstance(
+        k.value, str) for k in e.keys):
+      return {k.value: v for k, v in zip(e.keys, e.values)}
+    if isinstance(e, ast.Call) and core.dotted(e.func) == 'dict' and all(
+        k.arg is not None for k in e.keywords) and len(e.args) <= 1:
+      base = {}
+      if e.args:
+        base = lit(e.args[0])
+        if base is None:
+          return None
+        base = dict(base)
+      base.update({k.arg: k.value for k in e.keywords})
+      return base
+    if isinstance(e, ast.Name) and e.id in env and env[e.id] is not None:
+      return dict(env[e.id])
+    return None
+
+  for st in stmts:
+    if isinstance(st, ast.Expr) and isinstance(st.value, ast.Constant):
+      continue
+    if isinstance(st, ast.Return):
+      break
+    if isinstance(st, ast.Assign) and len(st.targets) == 1 and isinstance(
+        st.targets[0], ast.Name):
+      env[st.targets[0].id] = lit(st.value)
+      continue
+    if isinstance(st, ast.Assign) and len(st.targets) == 1 and isinstance(
+        st.targets[0], ast.Subscript) and isinstance(st.targets[0].value, ast.Name) and \
+        isinstance(st.targets[0].slice, ast.Constant) and env.get(
+            st.targets[0].value.id) is not None:
+      env[st.targets[0].value.id][st.targets[0].slice.value] = st.value
+      continue
+    if isinstance(st, ast.Expr) and isinstance(st.value, ast.Call) and isinstance(
+        st.value.func, ast.Attribute) and st.value.func.attr == 'update' and isinstance(
+            st.value.func.value, ast.Name) and env.get(st.value.func.value.id) is not None:
+      c = st.value
+      upd = {}
+      if c.args:
+        upd = lit(c.args[0]) if len(c.args) == 1 else None
+      if upd is None or any(k.arg is None for k in c.keywords):
+        env[c.func.value.id] = None
+        continue
+      upd.update({k.arg: k.value for k in c.keywords})
+      env[c.func.value.id].update(upd)
+      continue
+    # anything else mentioning a tracked dictionary invalidates it
+    for n in ast.walk(st):
+      if isinstance(n, ast.Name) and n.id in env:
+        env[n.id] = None
+  return env.get(name)
+
+
 def _field_flow(co, params):
   """field -> normalised source expression for the object call_options returns."""
   rets = [r for r in ast.walk(co.node) if isinstance(r, ast.Return)]
@@ -566,6 +634,13 @@ def _field_flow(co, params):
     return {}
   v = rets[0].value
   flow = {}
+  if isinstance(v, ast.Call) and core.dotted(v.func) == 'ConversionOptions' and \
+      not v.args and len(v.keywords) == 1 and v.keywords[0].arg is None and \
+      isinstance(v.keywords[0].value, ast.Name):
+    # ConversionOptions(**fields): the dictionary built by the straight-line
+    # statements before the return
+    d = _dict_value(co.node.body, v.keywords[0].value.id)
+    return {k: core.norm(x) for k, x in d.items()} if d is not None else {}
   if isinstance(v, ast.Call) and core.dotted(v.func) == 'ConversionOptions':
     names = params
     for i, a in enumerate(v.args):
